@@ -250,6 +250,11 @@ func (p c17) Run(c *fw.Case) {
 		d.root["$defs"].(map[string]any)["zz-any"] = map[string]any{"type": "string"}
 		d.root["$dynamicRef"] = "#/$defs/zz-any"
 	}
+	if c.Idx%6 == 4 {
+		// the document has an identity of its own, spelled in a way that needs normalising (dot segments), or carrying an empty
+		// query or an empty fragment: the pointer reference is still a reference into this very document
+		d.root["$id"] = gen.Pick(r, []string{"http://h/a/../b/./t.json", "http://h/x/./t.json", "http://h/t.json?", "http://h/t.json#", "http://h/a/b/../../t.json", "HTTP://h/t.json", "http://h/t.json?q=1"})
+	}
 	text := gen.Text(d.root)
 	var opts *jsonschema.ResolveOptions
 	if c.Idx%5 == 1 {
@@ -257,6 +262,7 @@ func (p c17) Run(c *fw.Case) {
 		// reference is being resolved, and the loaded document holds pointer references of its own
 		delete(d.root, "$ref")
 		delete(d.root, "$dynamicRef")
+		delete(d.root, "$id")
 		d.root["$defs"].(map[string]any)["zz-other"] = map[string]any{"$ref": "#/$defs/T"}
 		if r.IntN(2) == 0 {
 			d.root["allOf"] = []any{map[string]any{"$ref": "#/$defs/zz-other"}}
